@@ -22,7 +22,8 @@ def _plugins():
     mods = []
     for m in sorted(pkgutil.iter_modules(extractors.__path__), key=lambda m: m.name):
         mods.append(importlib.import_module(f"extractors.{m.name}"))
-    return mods
+    # alphabetical, except that a plugin whose rendering refers to the renderings of others says so with `ORDER = 1` (rendered last)
+    return sorted(mods, key=lambda mod: getattr(mod, "ORDER", 0))
 
 
 def extract() -> dict:
